@@ -48,7 +48,9 @@ func categoryConsts(p *Prog) map[int64]string {
 	}
 	for _, n := range hybCategories {
 		if c := pk.Types.Scope().Lookup("DataCategory" + n); c != nil {
-			if cc, ok := c.(interface{ Val() interface{ ExactString() string } }); ok {
+			if cc, ok := c.(interface {
+				Val() interface{ ExactString() string }
+			}); ok {
 				_ = cc
 			}
 		}
